@@ -4,6 +4,8 @@
   parsers); loader tables: Atomman/Generated/LoadStyles.lean (regenerated from /repo on every run).
 -/
 import Proofs.C08_Data
+import Proofs.C08_Formats
+import Proofs.C08_Indep
 namespace Atomman.C08
 open Atomman Atomman.C07
 set_option linter.unusedSimpArgs false
@@ -247,9 +249,7 @@ theorem load_dump_roundtrip_poscar {f : Fmt} (hf : Readable f) (s : Sys) (header
       .ok (poscarLoaded f scale (poscarNums s (isCartStyle coordstyle) scale).lattice
         (poscarNums s (isCartStyle coordstyle) scale).counts (poscarNums s (isCartStyle coordstyle) scale).coords
         (isCartStyle coordstyle)
-        (symArg.getD (match symbols with
-          | some l => l.map some
-          | none => (poscarNums s (isCartStyle coordstyle) scale).counts.map fun _ => none))) :=
+        (symArg.getD (writtenSymbols symbols (poscarNums s (isCartStyle coordstyle) scale).counts))) :=
   loadPoscar_writePoscar hf s header symbols coordstyle scale text hw hh hsy hcs hlen hne symArg
 
 def exSysP : Sys :=
@@ -311,6 +311,10 @@ theorem load_dump_roundtrip_table_partial {f : Fmt} (hf : Readable f) (s : Sys) 
 /-- every `%.nf` format is readable (C07: `parseNum_fmtFixed`), so the theorems above apply to the default
     `'%.13f'` and to every fixed-point `float_format`. -/
 theorem fixed_formats_readable (n : Nat) : Readable (.fixed n) := readable_fixed n
+
+/-- … and so is every `%.ne` format (C07: `parseNum_fmtExp`, `okTok_fmtExp`): the hypothesis `Readable f` of the
+    round-trip theorems holds for every float format of the model. -/
+theorem all_formats_readable (f : Fmt) : Readable f := readable_all f
 
 /-- a data file as the writer lays it out, atom lines not in id order, one atom wrapped through the x and y faces. -/
 def exText : List Char :=
